@@ -3,13 +3,13 @@
 E2 + hook H1.  Nesting shapes = compositions of frame kinds (h/h_vmerr.c: vm_kinds[]); for every shape P and every
 instruction boundary k = 1..N(P) the shape is re-run with a catchable error (second pass: a thrown value) raised
 at dispatch k, once uncaught to a driver-style entry and once under a top-level catch (catch is also a frame kind, so
-every placement of a catch inside the nesting is a shape of its own).  A third part puts 100 error sites (16 genuine error sites + 84 callback efuns with an unresolvable / wrong callback) at
+every placement of a catch inside the nesting is a shape of its own).  A third part puts 101 error sites (17 genuine error sites + 84 callback efuns with an unresolvable / wrong callback) at
 the leaf of every shape.  Oracles: register snapshot at the driver entry and at every catch point that completes,
 the value every catch yields, and a fixed probe evaluation compared with a fresh driver."""
 import json, os
 import vlib
 LEVEL = "fault_enumeration"
-SRC = ["h/h_c05.c", "h/h_vmerr.c", "wrap/w_vmerr_simulate.c", "wrap/w_vmerr_errctx.c", "wrap/w_backend.c"]
+SRC = ["h/h_c05.c", "h/h_vmerr.c", "wrap/w_vmerr_simulate.c", "wrap/w_vmerr_errctx.c", "wrap/w_backend.c", "wrap/w_vmerr_array.c"]
 STEM = ["simulate.c", "error_context.c", "backend.c"]
 JOBS = int(os.environ.get("VERIF_JOBS", "16"))
 HARNESSES = {"h_c05": (SRC, dict(replace_stem=STEM))}
@@ -27,17 +27,21 @@ RULE = ("nesting shapes = all compositions up to depth D of the frame kinds K (3
         "container, add_action verb via command() (by name, funptr with carry-over args), catch_tell via tell_object, id() via present, "
         "master applies valid_read/object_name(safe_apply)/creator_file/valid_object/valid_seteuid/valid_bind/valid_override(compile time) "
         "made by efuns); element = (shape P, uncaught | under a top-level catch, k) for EVERY k = 1..N(P) (N measured in a fault-free "
-        "run): the hook raises error(\"*verif fault k\") [pass 2: throw(({1,\"t\"}))] at dispatch k; part 'sites': 100 error sites = 16 genuine error sites "
+        "run): the hook raises error(\"*verif fault k\") [pass 2: throw(({1,\"t\"}))] at dispatch k; pass 'entry giver' (--giver=1): the same "
+        "elements entered while a living P is this_player() (command_giver at the driver's entry and at the top-level catch); the hook destructs P "
+        "right before it raises the fault, so every shape that switches the command giver (init() via move, command() verbs, catch_tell, "
+        "id()) is unwound with the saved command giver destructed: afterwards command_giver must be P itself or 0, never the object the "
+        "failed call had switched to; part 'sites': 101 error sites = 17 genuine error sites "
         "(error(), throw(), division by zero, index out of bounds, bad operand, call_other on 0, efun bad argument, sprintf error, "
         "index error inside foreach, too deep recursion, eval cost, stack overflow, load of a missing / non-compiling file, "
-        "destruct(this_object()) then error, error between a varargs spread and its call) and 84 leaves 'callback efun with an unresolvable / wrong callback' "
+        "destruct(this_object()) then error, error between a varargs spread and its call, destruct of the entry command giver then error) and 84 leaves 'callback efun with an unresolvable / wrong callback' "
         "({filter array/mapping(+extra args), map array/mapping/string, sort_array, unique_array, unique_mapping, implode, call_out, add_action, "
         "input_to} x target {0, destructed object, unloadable file, object without that function, float target, float callback}) as the leaf of every shape; master behaviour "
         "dimension: error_handler() = plain log | evaluates catch(error(...)) and a successful catch before it logs; part 'api': the driver's "
         "own entry points called from C as backend/comm/call_out do -- safe_apply, apply, safe_call_function_pointer, call_function_pointer, "
         "apply_master_ob, safe_apply_master_ob x target {live, destructed just before / funptr whose owner is destructed} x {function "
         "exists, missing, functional funptr} x fault at EVERY dispatch k of the called function (20 scenarios, 231 elements), each followed "
-        "by the snapshot comparison (incl. depth of the error-context chain, also at the point where the API returns) and the probe; part "
+        "by the snapshot comparison (21 registers incl. depth of the error-context chain and of sort_array()'s callback descriptor list, also at the point where the API returns) and the probe; part "
         "'vital': destruct(master()) / destruct(simul_efun) while the reload fails by {syntax error in the file, error in create() of the new "
         "copy, valid_object() refuses, loader without euid} x {caught, uncaught} in a private copy of the mudlib, then the file is repaired and "
         "names, find_object(), a successful destruct(master())+reload and the probe are checked (16 elements); part 'tick': one whole "
@@ -68,7 +72,7 @@ def fix_replays(ck):
     for key, info in ck.fails.items():
         desc = (info["record"].get("desc") or "")
         first = desc.split("\n", 1)[0]
-        keep = [x for x in info["args"] if x.startswith("--master=")]
+        keep = [x for x in info["args"] if x.startswith("--master=") or x.startswith("--giver=")]
         if first.startswith("elem="):
             info["args"] = ["--" + first] + keep
             info["fail"]["index"] = 0
@@ -110,6 +114,8 @@ def run(ck):
         ck.enum(p, ["--depth=1", "--kinds=all", "--part=sites"], "d1-sites", batch=64, deadline_s=40, jobs=J, timeout_ms=400000)
         ck.enum(a, ["--depth=1", "--kinds=all", "--mode=error"], "asan-d1-all-error", batch=32, deadline_s=60, jobs=J, timeout_ms=400000)
         ck.enum(p, ["--depth=1", "--kinds=all", "--mode=error", "--master=catch"], "d1-all-error-master-uses-catch", batch=64, deadline_s=40, jobs=J, timeout_ms=400000)
+        ck.enum(p, ["--depth=1", "--kinds=all", "--mode=error", "--giver=1"], "d1-all-error-entry-giver-destructed", batch=64, deadline_s=40, jobs=J, timeout_ms=400000)
+        ck.enum(p, ["--depth=1", "--kinds=all", "--part=sites", "--giver=1"], "d1-sites-entry-giver", batch=64, deadline_s=40, jobs=J, timeout_ms=400000)
         ck.enum(p, ["--part=api"], "api", batch=16, deadline_s=30, jobs=J, timeout_ms=400000)
         ck.enum(a, ["--part=api", "--master=catch"], "asan-api-master-uses-catch", batch=16, deadline_s=30, jobs=J, timeout_ms=400000)
         ck.enum(a, ["--part=vital"], "asan-vital-object-reload-fails", batch=2, deadline_s=30, jobs=J, timeout_ms=400000)
@@ -131,6 +137,10 @@ def run(ck):
         ck.enum(p, ["--part=api"], "api", batch=16, deadline_s=30, jobs=J, timeout_ms=400000)
         ck.enum(p, ["--part=api", "--master=catch"], "api-master-uses-catch", batch=16, deadline_s=30, jobs=J, timeout_ms=400000)
         ck.enum(a, ["--part=api"], "asan-api", batch=16, deadline_s=30, jobs=J, timeout_ms=400000)
+        ck.enum(p, ["--depth=2", "--kinds=core", "--mode=error", "--giver=1"], "d2-core-error-entry-giver-destructed", batch=64, deadline_s=200, jobs=J, timeout_ms=400000)
+        ck.enum(p, ["--depth=1", "--kinds=all", "--mode=throw", "--giver=1"], "d1-all-throw-entry-giver-destructed", batch=64, deadline_s=60, jobs=J, timeout_ms=400000)
+        ck.enum(p, ["--depth=1", "--kinds=all", "--part=sites", "--giver=1"], "d1-sites-entry-giver", batch=64, deadline_s=60, jobs=J, timeout_ms=400000)
+        ck.enum(a, ["--depth=1", "--kinds=all", "--mode=error", "--giver=1"], "asan-d1-all-error-entry-giver-destructed", batch=32, deadline_s=90, jobs=J, timeout_ms=400000)
         ck.enum(p, ["--depth=2", "--kinds=all", "--mode=error"], "d2-all-error", batch=64, deadline_s=420, jobs=J, timeout_ms=400000)
         ck.enum(p, ["--depth=2", "--kinds=all", "--mode=throw"], "d2-all-throw", batch=64, deadline_s=420, jobs=J, timeout_ms=400000)
         ck.enum(p, ["--depth=3", "--kinds=mini", "--mode=error"], "d3-mini-error", batch=64, deadline_s=300, jobs=J, timeout_ms=400000)
@@ -156,11 +166,12 @@ def selftest(ck):
     want = {1: "C05:sp-not-restored:driver-entry:fault-uncaught", 2: "C05:command_giver-not-restored:catch-point", 3: "C05:probe:",
             4: "C05:error_context_chain-not-restored:api:", 5: "C05:sp-not-restored:vital-reload:", 6: "C05:vital-object-not-as-before:",
             7: "C05:current_heart_beat-not-restored:tick:", 8: "C05:heart-beat-of-another-object-changed:tick:",
-            9: "C05:sp-not-restored:stack-edge:", 10: "C05:reference-count-changed-by-stack-overflow:"}
+            9: "C05:sp-not-restored:stack-edge:", 10: "C05:reference-count-changed-by-stack-overflow:",
+            11: "C05:sort_array_descriptor_chain-not-restored:driver-entry"}
     bad = 0
     for st, sub in want.items():
         ck2 = vlib.Check("C05", "quick", 0, LEVEL)
-        a2 = ["--part=api"] if st == 4 else ["--part=stackedge"] if st >= 9 else ["--part=tick"] if st >= 7 else ["--part=vital"] if st >= 5 else ["--depth=1", "--kinds=call,catch,call_other", "--mode=error"]
+        a2 = ["--part=api"] if st == 4 else ["--part=stackedge"] if st in (9, 10) else ["--part=tick"] if st in (7, 8) else ["--part=vital"] if st in (5, 6) else ["--depth=1", "--kinds=call,catch,call_other", "--mode=error"]
         ck2.enum(ex["h_c05p"], a2 + ["--selftest=%d" % st], "selftest%d" % st, batch=64, jobs=JOBS)
         hit = [k for k in ck2.fails if sub in k]
         if ck2.broken or not hit:
